@@ -184,7 +184,10 @@ def dump_uri(uri_value, version=LATEST_VER):
 
 
 def dump_bin(bin_value, version=LATEST_VER):
-    return 'Bin(%s)' % bin_value
+    if version < VER_3_0:
+        return 'Bin(%s)' % bin_value
+    # Project Haystack 3.0 spells a Bin like an XStr: Bin("mime/type")
+    return 'Bin(%s)' % dump_str(bin_value, version=version)
 
 
 def dump_xstr(xstr_value, version=LATEST_VER):
